@@ -12,7 +12,11 @@ AS_TRANS, hold time, router id, one capabilities parameter = 4-octet-AS capabili
 AS followed by the plugin's capabilities minus any 4-octet-AS capability of its own -/
 theorem new_open_eq (asn : UInt32) (hold : UInt16) (id : UInt32) (caps : List Cap) :
     newOpenMessage asn hold id caps = Spec.expectedOpen ⟨asn, hold, id⟩ caps := by
-  sorry
+  unfold newOpenMessage Spec.expectedOpen fourOctetASCap
+  simp only [Gen.asTrans, Gen.CAP_FOUR_OCTET_AS, Lemmas.be32Bytes_eq]
+  congr 4
+  funext c
+  by_cases h : c.code = 65 <;> simp [bne, h]
 
 /-- if the capabilities can be represented, the bytes put on the wire are the RFC wire form of
 that OPEN — every length octet (message, optional parameters, parameter, capability) equal to
@@ -21,21 +25,35 @@ theorem open_wire (asn : UInt32) (hold : UInt16) (id : UInt32) (caps : List Cap)
     (h : Spec.Representable (Spec.expectedOpen ⟨asn, hold, id⟩ caps)) :
     encodeOpen (newOpenMessage asn hold id caps)
       = some (Spec.frame 1 (Spec.openBody (Spec.expectedOpen ⟨asn, hold, id⟩ caps))) := by
-  sorry
+  rw [new_open_eq]
+  obtain ⟨_, h1, h2⟩ := (Lemmas.representable_iff _).1 h
+  unfold encodeOpen
+  rw [Lemmas.encodeOpenBody_ok _ h1 h2, Option.map_some, Lemmas.prependHeader_frame]
+  · rfl
+  · have : (Spec.openBody (Spec.expectedOpen ⟨asn, hold, id⟩ caps)).length
+        = 10 + (Spec.paramsWire (Spec.expectedOpen ⟨asn, hold, id⟩ caps).params).length := by
+      simp [Spec.openBody, Spec.u16, Spec.u32]; omega
+    omega
 
 /-- … and those bytes parse back, under the RFC grammar, to exactly that OPEN -/
 theorem open_wire_parses (asn : UInt32) (hold : UInt16) (id : UInt32) (caps : List Cap)
     (h : Spec.Representable (Spec.expectedOpen ⟨asn, hold, id⟩ caps)) :
     Spec.parseOpen (Spec.openBody (Spec.expectedOpen ⟨asn, hold, id⟩ caps))
-      = some (Spec.expectedOpen ⟨asn, hold, id⟩ caps) := by
-  sorry
+      = some (Spec.expectedOpen ⟨asn, hold, id⟩ caps) :=
+  Lemmas.open_spec_rt' _ h
 
 /-- if they cannot be represented (a value above 255 bytes, or more than fits one parameter),
 encoding fails and nothing is written (`sendOpenAndSetHoldTimer` closes the connection) -/
 theorem open_unrepresentable (asn : UInt32) (hold : UInt16) (id : UInt32) (caps : List Cap)
     (h : ¬ Spec.Representable (Spec.expectedOpen ⟨asn, hold, id⟩ caps)) :
     encodeOpen (newOpenMessage asn hold id caps) = none := by
-  sorry
+  rw [new_open_eq]
+  unfold encodeOpen
+  rw [Lemmas.encodeOpenBody_bad, Option.map_none]
+  intro hok
+  apply h
+  apply (Lemmas.representable_iff _).2
+  exact ⟨by simp [Spec.expectedOpen], hok.1, hok.2⟩
 
 example : Spec.Representable (Spec.expectedOpen ⟨70000, 90, 1⟩ [⟨1, [0, 1, 0, 1]⟩, ⟨65, [1, 2, 3, 4]⟩]) := by decide
 
